@@ -356,7 +356,28 @@ func runC19(c *Ctx) {
 	pool = append(pool, withDisplay, reference.Logical("Patient", "sys", "v"), reference.Logical("Patient", "sys", "w"), &dtpb.Reference{},
 		&dtpb.Reference{Reference: &dtpb.Reference_Fragment{Fragment: fhir.String("f")}, Type: fhir.URI("Patient")},
 		&dtpb.Reference{Reference: &dtpb.Reference_Fragment{Fragment: fhir.String("f")}},
-		&dtpb.Reference{Reference: &dtpb.Reference_Uri{Uri: fhir.String("urn:uuid:1")}}, &dtpb.Reference{Display: fhir.String("only")})
+		&dtpb.Reference{Reference: &dtpb.Reference_Uri{Uri: fhir.String("urn:uuid:1")}}, &dtpb.Reference{Display: fhir.String("only")},
+		// the URI layout of the fragment references above, and one with a display
+		&dtpb.Reference{Reference: &dtpb.Reference_Uri{Uri: fhir.String("#f")}, Type: fhir.URI("Patient")},
+		&dtpb.Reference{Reference: &dtpb.Reference_Uri{Uri: fhir.String("#f")}, Type: fhir.URI("Patient"), Display: fhir.String("d")},
+		&dtpb.Reference{Reference: &dtpb.Reference_Uri{Uri: fhir.String("#g")}, Type: fhir.URI("Patient")})
+	// a typed fragment reference and the URI reference naming the same contained resource compare as the same reference
+	for _, fid := range []string{"f", "c1", "a-b.c"} {
+		for _, typ := range []string{"Patient", "Observation"} {
+			strong := &dtpb.Reference{Reference: &dtpb.Reference_Fragment{Fragment: fhir.String(fid)}, Type: fhir.URI(typ)}
+			weak := &dtpb.Reference{Reference: &dtpb.Reference_Uri{Uri: fhir.String("#" + fid)}, Type: fhir.URI(typ)}
+			weakD := &dtpb.Reference{Reference: &dtpb.Reference_Uri{Uri: fhir.String("#" + fid)}, Type: fhir.URI(typ), Display: fhir.String("shown")}
+			other := &dtpb.Reference{Reference: &dtpb.Reference_Uri{Uri: fhir.String("#" + fid + "x")}, Type: fhir.URI(typ)}
+			var a, b, cc, d bool
+			_, pan, _ := safeErr(func() error {
+				a, b, cc, d = reference.Is(strong, weak), reference.Is(weak, strong), reference.Is(weak, weakD), reference.Is(weak, other)
+				return nil
+			})
+			c.Observe("fragment is "+typ+"#"+fid, true)
+			c.Law(!pan && a && b && cc && !d, "C19/strong-weak-is", "a typed reference and the URI reference naming the same resource compare as the same reference (fragments included); a display changes nothing; another id differs",
+				typ+" #"+fid, fmt.Sprintf("Is(strong,weak)=%v Is(weak,strong)=%v Is(weak,weak+display)=%v Is(weak,other)=%v panic=%v", a, b, cc, d, pan))
+		}
+	}
 	wholeClass := func(r *dtpb.Reference) int {
 		for i, p := range pool {
 			if proto.Equal(p, r) {
